@@ -146,6 +146,14 @@ def rule_filter(ctx: Ctx, repo: Repo) -> None:
         ok = isinstance(sql, K) and isinstance(sql.v, str) and len(vals) == 1 and isinstance(vals[0], R) and vals[0].kind == "list" and \
             list(vals[0].fields["items"]) == [S("module"), S("prefix"), S("prefix"), S("limit")][:len(vals[0].fields["items"])] and S("limit") in vals[0].fields["items"]
         ctx.check(ok, "R-C09.3", flt.fq, "filter passes its module, prefix and limit arguments to the query unchanged", construct=f"{vals}")
+    # concrete limits, 0 included: min(0, d) = 0 rows - the value bound to LIMIT is the requested number itself
+    for lim in (0, 1, 7, 2000):
+        sc_l = DM.DbScenario(repo, "SQLiteStore.filter", {"table": K("T")})
+        o_l = sc_l.run({ps[1]: S("module"), ps[2]: S("prefix"), ps[3]: K(lim)})
+        ex_l = sc_l.executed
+        bound = list(ex_l[0][2][0].fields["items"]) if len(o_l) == 1 and len(ex_l) == 1 and len(ex_l[0][2]) == 1 and isinstance(ex_l[0][2][0], R) and ex_l[0][2][0].kind == "list" else None
+        ctx.check(bound is not None and bound[-1:] == [K(lim)], "R-C09.3", flt.fq, "the value bound to LIMIT is the requested limit itself, for every limit >= 0 (limit 0 asks for no rows)",
+                  construct=f"filter(module, prefix, {lim}): LIMIT <- {bound[-1] if bound else ex_l}")
     fetches = [e for e in outs[0].effects if e[0] == "fetch"]
     ctx.check([e[1] for e in fetches] == ["fetchall"], "R-C09.3", flt.fq, "the whole result set is fetched (fetchall, once)", construct=f"{[e[1] for e in fetches]}")
     for nrows in (0, 1, 3):
